@@ -208,4 +208,19 @@ def streams(tier, rng, P, only=None, cases=None):
         return None
     s5 = Stream("pfbank", cases if (cases and only == "pfbank") else mk_pb(), lambda c, st, f: [], pb_judge, lambda c, i, m: i[1].get("bin") if i[0] == "ok" else None,
                 "bank select before the program change re-issued at a play-from point")
-    return [s for s in (s1, s2, s3, s4, s5) if only in (None, s.name)]
+    # ---- words of the Japanese notation that stand for a controller command, followed by a word that stands for an operator-like
+    #      character (`上` = `>`, `｜`): the word is a whole command, what follows it is the next command
+    def mk_jp():
+        out = []
+        for j, (a, b) in enumerate([("ペダル上ド", "y64,127; >c"), ("ペダル｜ドミソ 放す｜ド", "y64,127; | ceg y64,0; | c"), ("放す上レ", "y64,0; >d"), ("ペダル下ミ", "y64,127; <e"),
+                                    ("ペダル ドレミ 放す", "y64,127; cde y64,0;"), ("ペダル", "y64,127;"), ("ドペダル上ドレ放す下ミ", "c y64,127; >cd y64,0; <e")]):
+            out.append(dict(req="compile2 %s %s" % (hx(a), hx(b)), src=a, src2=b, show="%s   vs   %s" % (a, b), key="jp%d" % j))
+        return out
+    def jp_judge(c, impl, m):
+        st, f = impl
+        if st != "ok": return ("violation", "program did not compile normally: " + st)
+        if f["bin1"] != f["bin2"]: return ("violation", "a controller word of the Japanese notation is not its command: %s vs %s" % (c["src"], c["src2"]))
+        return None
+    s6 = Stream("jpwords", cases if (cases and only == "jpwords") else mk_jp(), lambda c, st, f: [], jp_judge, lambda c, i, m: i[1].get("bin1") if i[0] == "ok" else None,
+                "controller words of the Japanese notation followed by operator-like words")
+    return [s for s in (s1, s2, s3, s4, s5, s6) if only in (None, s.name)]
